@@ -26,7 +26,13 @@ class FramedIpAddressAVP(DiameterAVP, AddressType):
     def __init__(self, data):
         DiameterAVP.__init__(self, FramedIpAddressAVP.code)
         DiameterAVP.set_mandatory_bit(self, True)
-        AddressType.__init__(self, data=data)
+
+        #: Framed-IP-Address carries the packed IPv4 address only (no address
+        #: family), so wire data does not go through the AddressType checks.
+        if isinstance(data, bytes):
+            OctetStringType.__init__(self, data=data)
+        else:
+            AddressType.__init__(self, data=data)
 
 
     def parser_data(self, data):
